@@ -1,6 +1,7 @@
 use std::iter::once;
 
 use crate::bound::{Bounds, WhereClauseBuilder};
+use crate::syn_utils::ref_elem;
 use proc_macro2::{Span, TokenStream, TokenTree};
 use quote::{quote, quote_spanned, ToTokens};
 use structmeta::{Flag, ToTokens};
@@ -236,7 +237,7 @@ fn build_partial_eq_expr(
     wcb: &mut WhereClauseBuilder,
 ) -> Result<TokenStream> {
     let op = CompareOp::PartialEq;
-    let ty = &field.field.ty;
+    let ty = ref_elem(&field.field.ty);
     let fn_ident = field.make_ident("__eq_");
     let this = source.self_of(field);
     let other = source.other_of(field);
@@ -501,7 +502,7 @@ fn build_partial_ord_expr(
     wcb: &mut WhereClauseBuilder,
 ) -> Result<TokenStream> {
     let op = CompareOp::PartialOrd;
-    let ty = &field.field.ty;
+    let ty = ref_elem(&field.field.ty);
     let fn_ident = field.make_ident("__partial_ord_");
     let this = source.self_of(field);
     let other = source.other_of(field);
@@ -641,7 +642,7 @@ fn build_ord_expr(
     wcb: &mut WhereClauseBuilder,
 ) -> Result<TokenStream> {
     let op = CompareOp::Ord;
-    let ty = &field.field.ty;
+    let ty = ref_elem(&field.field.ty);
     let fn_ident = field.make_ident("__ord_");
     let this = source.self_of(field);
     let other = source.other_of(field);
@@ -741,7 +742,7 @@ fn build_hash_expr(
     wcb: &mut WhereClauseBuilder,
 ) -> Result<TokenStream> {
     let op = CompareOp::Hash;
-    let ty = &field.field.ty;
+    let ty = ref_elem(&field.field.ty);
     let fn_ident = field.make_ident("__hash_");
     let this = source.self_of(field);
     let cmp = &field.hattrs.cmp;
